@@ -98,6 +98,7 @@ var errTable = [][2]string{
 	{"no firmware volumes in BIOS Region", "10"},
 	{"gap between regions", "11"},
 	{"gap between at end of flash", "12"},
+	{"is not a multiple of the block size", "13"},
 	{"EOF", "7"},
 }
 
